@@ -9,6 +9,7 @@ import (
 	"fmt"
 	"net/http"
 	"os"
+	"path/filepath"
 	"runtime"
 	"sort"
 	"strings"
@@ -232,6 +233,19 @@ type harnessAbort struct{}
 
 // newSubRand derives a private stream for a helper goroutine.
 func newSubRand(w *World, name string) *simnet.Rand { return simnet.NewRand(w.In.Seed, name) }
+
+// ScratchDir returns a directory private to this run, next to its result file. (os.MkdirTemp draws its name from
+// the runtime's seeded random stream: two processes replaying the same seed at the same time would collide, retry,
+// and shift that stream - the one source of divergence the determinism self-test found after the ssh gateway was added.)
+func (w *World) ScratchDir(name string) string {
+	base := filepath.Dir(w.In.Out)
+	if w.In.Out == "" {
+		base = os.TempDir()
+	}
+	d := filepath.Join(base, "scratch-"+strings.TrimSuffix(filepath.Base(w.In.Out), ".json")+"-"+name)
+	os.MkdirAll(d, 0o755)
+	return d
+}
 
 // Sleep advances simulated time.
 func (w *World) Sleep(d time.Duration) { time.Sleep(d) }
